@@ -5982,7 +5982,7 @@ class FlowIRConcrete(object):
 
     def invalidate_cache_for_component(self, comp_id):
         self._cache.invalidate_reg_expression(r'component:.*:stage%s:%s' % (
-            comp_id[0], comp_id[1]))
+            comp_id[0], re.escape(str(comp_id[1]))))
 
     def update_component(self, comp_id, new_flowir):
         # type: (FlowIRComponentId, DictFlowIRComponent) -> None
@@ -6012,7 +6012,7 @@ class FlowIRConcrete(object):
         if return_copy:
             return deep_copy(component)
 
-        self._cache.invalidate_reg_expression(r"component:.*:stage%s:%s" % (comp_id[0], comp_id[1]))
+        self.invalidate_cache_for_component(comp_id)
         return component
 
     def delete_component(self, comp_id, ignore_errors=False):
@@ -6037,9 +6037,7 @@ class FlowIRConcrete(object):
             except KeyError:
                 pass
 
-            self._cache.invalidate_reg_expression(r'component:.*:stage%s:%s' % (
-                comp['stage'], comp['name']
-            ))
+            self.invalidate_cache_for_component((comp['stage'], comp['name']))
         except:
             if ignore_errors is False:
                 raise
